@@ -11,13 +11,13 @@ THEOREMS = [
     'Ndn.C16.cert_wire', 'Ndn.C16.cert_name', 'Ndn.C16.cert_signed_portion', 'Ndn.C16.parse_cert_roundtrip',
     'Ndn.C16.formatTime_length', 'Ndn.C16.formatTime_inj', 'Ndn.Gen.C16.schema_matches',
     'Ndn.C16.ord_ymd_roundtrip', 'Ndn.C16.addSeconds_spec', 'Ndn.C16.addYears_spec', 'Ndn.C16.toUtc_spec',
-    'Ndn.C16.fmtInstant_inj', 'Ndn.C16.fmt_domain', 'Ndn.C16.derive_instants',
-    'Ndn.C16.validity_encodes_requested_instants', 'Ndn.C16.req_instants', 'Ndn.C16.self_instants',
-    'Ndn.C16.issued_validity',
+    'Ndn.C16.fmtInstant_inj', 'Ndn.C16.fmt_domain', 'Ndn.C16.derive_instants', 'Ndn.C16.derive_zone_independent',
+    'Ndn.C16.validity_encodes_requested_instants', 'Ndn.C16.validity_period_length', 'Ndn.C16.req_instants',
+    'Ndn.C16.self_instants', 'Ndn.C16.issued_validity',
 ]
 PARTIAL = {}
 TRUSTED = [
-    'C16: the calendar is modelled (NdnModel/Calendar.lean transcribes CPython\'s _ymd2ord/_ord2ymd, datetime + timedelta(seconds=n), replace(year=...), astimezone(UTC) for a fixed offset in whole minutes) and tied to CPython\'s datetime by the calendar stream of this run; an instant enters the model as (date.toordinal(), second of day, microsecond); expire_sec is an integer; strftime(\'%Y%m%dT%H%M%S\') is modelled as zero-padded decimal fields, which is what glibc prints for the years 1000..9999 only (validity periods reaching below 1000-01-01 = ordinal 364878 are answered `skip` by the model and not compared); zones with a variable offset (DST) are outside the model',
+    'C16: the calendar is modelled (NdnModel/Calendar.lean transcribes CPython\'s _ymd2ord/_ord2ymd, datetime + timedelta(seconds=n), replace(year=...), astimezone(UTC) as wall-clock reading minus the offset the tzinfo reports for that reading and its fold, in whole seconds) and tied to CPython\'s datetime by the calendar stream of this run; an instant enters the model as (date.toordinal(), second of day, microsecond); expire_sec is an integer; strftime(\'%Y%m%dT%H%M%S\') is modelled as zero-padded decimal fields, which is what glibc prints for the years 1000..9999 only (validity periods reaching below 1000-01-01 = ordinal 364878 are answered `skip` by the model and not compared); the tzinfo of an aware start time is an arbitrary function from (wall-clock reading, fold) to an offset in the theorems; in the correspondence runs the model is handed the offset the tzinfo reports for the start reading and the one it reports for the wall-clock reading start + expire_sec (a two-valued zone function); offsets with a microsecond part (possible for hand-written tzinfo classes, not for zoneinfo) are outside the model',
     'C16: the signer is abstract as in C01 (its output is recorded); verification uses the real pycryptodomex verifiers in the oracle',
 ]
 RULE = ('certificates produced by self_sign, sign_req and derive_cert for random key names (given as component list, tuple, '
@@ -28,11 +28,11 @@ RULE = ('certificates produced by self_sign, sign_req and derive_cert for random
         'before, its private key given as DER or PEM (HMAC / Ed25519: bytes, bytearray, memoryview), its key locator as URI text, '
         'component list or encoded Name, EC P-224 issuers too, a sweep of every kind '
         'of year (weekday of 1 Jan x leap) x 29 Dec..3 Jan as requested start, requested end, now, now+10d, now+20y, month '
-        'ends, microseconds, UTC-aware starts, a machine zone other than UTC, total certificate size swept across 253 and '
+        'ends, microseconds, UTC-aware starts, starts in fixed-offset zones (whole hours, 5:45, offsets with seconds), starts in zoneinfo zones whose offset changes (daylight saving in both directions incl. the repeated hour with fold=1, 30-minute DST, a skipped calendar day, local-mean-time offsets with seconds, far-future rule years) placed around every change of offset of the zone with durations reaching across it in both directions, a hand-written tzinfo whose offset depends on the day and on fold, a machine zone other than UTC, total certificate size swept across 253 and '
         '65536 for every signer, EC P-256/384/521, RSA-2048 and Ed25519 subject keys and issuer signers (plus HMAC and a synthetic signer '
         'sweeping reserved/real signature lengths across 253), validity start times at year / month / leap-day boundaries '
         'and durations up to 10^9 s, with the clock patched; the model is handed the instants as (ordinal, second, microsecond, '
-        'offset minutes) + expire_sec and computes the calendar fields of the validity period itself, and the calendar '
+        'fold, offset seconds for that reading, offset for the reading start+expire_sec) + expire_sec and computes the calendar fields of the validity period itself, and the calendar '
         'errors (OverflowError past 9999-12-31, ValueError for 29 Feb + 20 years into a common year) are compared too. '
         'Calendar stream: ymd2ord / ord2ymd / datetime + timedelta(seconds=n) / astimezone(UTC) / replace(year+k) / '
         'strftime of the Lean model against CPython\'s datetime in both directions (from fields and from ordinals) on '
@@ -51,7 +51,9 @@ LEVEL_TEXT = ('Lean 4 theorems about the model of new_cert (manual outer-TLV ass
               'inverse bijections (all ordinals, all valid dates), datetime + timedelta(seconds=n) is exactly ordinal*86400+second '
               'arithmetic with OverflowError outside the years 1..9999, replace(year+20) fails exactly on 29 February into a '
               'common year or past 9999, astimezone(UTC) preserves the moment; hence derive_cert writes the texts of the UTC '
-              'instants t and t+expire_sec, sign_req of now and now+10 d, self_sign of 19700101T000000 and now with year+20, '
+              'instants t and t+expire_sec for EVERY tzinfo of the start time (any function from wall-clock readings and fold to '
+              'offsets: fixed or daylight-saving zones; the result depends on the zone only through the offset of the start reading, '
+              'and the period spans exactly expire_sec of elapsed time; OverflowError iff one of the two moments leaves the years 1..9999), sign_req of now and now+10 d, self_sign of 19700101T000000 and now with year+20, '
               'and the validity period determines those instants to the second. Tied to security_v2.py by differential execution with real keys and a patched clock; the '
               'oracle verifies every certificate with the issuer\'s public key.')
 LEVEL_NOTE = 'Model = code sampled; the calendar is modelled and compared with CPython datetime; cryptography is not modelled (oracle side only).'
@@ -109,10 +111,25 @@ def _rand_time(rng):
             rng.randint(0, 59)]
 
 
+ZONES = ['America/New_York', 'Europe/Berlin', 'Australia/Lord_Howe', 'Europe/Dublin', 'America/St_Johns', 'Pacific/Apia',
+         'Asia/Kathmandu', 'Africa/Casablanca', 'Pacific/Kiritimati', 'Asia/Tehran', 'Antarctica/Troll']
+
+
 def _extras(rng):
     """dimensions added by hardening (absent keys mean the old behaviour, so old replays stay valid)"""
-    return {'tz': rng.choice([None, None, 0, 0, 5, -8, 5.75, 14, -12]), 'us': rng.choice([0, 0, 1, 500000, 999999]),
-            'local_off': rng.choice([-11, -5, 1, 9, 14]), 'kn_form': rng.choice(KN_FORMS)}
+    e = {'tz': rng.choice([None, None, 0, 0, 5, -8, 5.75, 14, -12]), 'us': rng.choice([0, 0, 1, 500000, 999999]),
+         'local_off': rng.choice([-11, -5, 1, 9, 14]), 'kn_form': rng.choice(KN_FORMS)}
+    r = rng.random()
+    if r < 0.15:
+        # the start instant expressed in a zone whose offset changes over the year (and over the centuries: local mean
+        # time with seconds before the railways, the rule of the last tzdata line in the far future)
+        e['zone'], e['tz'] = rng.choice(ZONES), None
+    elif r < 0.22:
+        # a fixed offset that is not a whole number of minutes
+        e['tz_s'], e['tz'] = rng.choice([1, -1, 59, 3599, -17762, 1172, 86399, -86399, rng.randint(-86399, 86399)]), None
+    elif r < 0.27:
+        e['wall_zone'], e['tz'], e['fold'] = [rng.randint(-86399, 86399), rng.randint(-86399, 86399)], None, rng.choice([0, 1])
+    return e
 
 
 def _extras2(rng, issuer):
@@ -130,6 +147,34 @@ def _extras2(rng, issuer):
         if e['kl_form'] == 'str' and any(c[:2] in ('32', '34', '36', '38', '3a') for c in e['kl']):
             e['kl_form'] = 'wire'
     return e
+
+
+def _gc(text):
+    """a generic name component with that text, in hex"""
+    return (b'\x08' + bytes([len(text)]) + text.encode()).hex()
+
+
+# key names that themselves contain `KEY` components at every position, key ids that read `KEY` / `self`, names that have
+# the shape of a certificate name (.../KEY/<key-id>/<issuer>/<version>) or of a key name nested in a key name: whatever
+# is handed in as key_name is the key name, and the certificate is named key-name / issuer-id / version
+KEYISH_NAMES = [[_gc(t) if not t.startswith('#') else t[1:] for t in n] for n in (
+    ['KEY', 'alice', 'KEY', 'k1'], ['a', 'KEY', 'b', 'KEY', 'k'], ['KEY', 'KEY', 'KEY', 'k1'], ['a', 'KEY', 'x', 'y', 'KEY', 'k'],
+    ['KEY', 'KEY'], ['alice', 'KEY', 'KEY'], ['alice', 'KEY', 'self'], ['KEY', 'a', 'b', 'c'], ['a', 'KEY', 'b', 'c'],
+    ['a', 'b', 'KEY', 'c', 'd'], ['KEY'], ['self', 'KEY', 'NDNCERT'], ['KEY', 'KEY', 'KEY', 'KEY', 'KEY', 'KEY'],
+    ['a', 'KEY', 'k', 'self', '#360101'], ['a', 'KEY', 'k', 'ca', '#36080000018bcfe56800'], ['a', 'KEY', 'k', 'KEY', 'k'],
+    ['KEY', 'alice', 'KEY', 'k1', 'KEY', 'k2'], ['a', 'KEY', 'k', 'cert-request', '#360102'],
+    ['a', 'key', 'b', 'KEY', 'k'], ['a', 'KEY', 'b', 'key', 'k'], ['self', 'self', 'self', 'self'])]
+
+
+def _keyish(rng, tier):
+    """every such key name x self_sign / sign_req / derive_cert x the forms a name can be handed over in"""
+    for kn in KEYISH_NAMES:
+        for fn in ('self', 'req', 'derive'):
+            forms = KN_FORMS[1:] if tier != 'quick' else ['list', 'str', 'wire'] + rng.sample(KN_FORMS[4:], 1)
+            for form in forms:
+                yield _base(rng, fn=fn, key_name=kn, kn_form=form, issuer=rng.choice(FAST_ISSUERS),
+                            issuer_id=rng.choice([['text', 'ca'], ['text', 'KEY'], ['text', 'self'], ['comp', _gc('KEY')]]),
+                            start=_rand_time(rng), now=[2024, 5, 6, 7, 8, 9], prior=rng.choice([0, 1]))
 
 
 def _base(rng, **kw):
@@ -215,6 +260,11 @@ def _random_case(rng, tier):
         key_name = []                                               # a key name of zero components
     elif r < 0.10:
         key_name = [c.hex() for c in PK.rand_name(rng)]             # no KEY / key-id suffix
+    elif r < 0.22:
+        # `KEY` / `self` components inside the identity, in front of and behind the key's own KEY component
+        key_name = [c.hex() for c in PK.rand_name(rng)][:rng.randint(0, 2)] + list(rng.choice(KEYISH_NAMES))
+        if rng.random() < 0.5:
+            key_name += [_gc('KEY'), rng.choice([PK.rand_comp(rng).hex(), _gc('KEY'), _gc('self')])]
     else:
         key_name = [c.hex() for c in PK.rand_name(rng)] + ['08034b4559', PK.rand_comp(rng).hex()]
     start = _rand_time(rng)
@@ -319,10 +369,11 @@ def _cal_case(rng):
             n = rng.randint(-10 ** rng.randint(1, 11), 10 ** rng.randint(1, 11))
         return {'fn': 'cal', 'op': 'add', 'inst': inst, 'n': n}
     if r < 0.80:
-        off = rng.choice([0, 1, -1, 60, -60, 330, 345, -210, 840, -720, 1439, -1439, rng.randint(-1439, 1439)])
+        off = rng.choice([0, 1, -1, 60, -60, 3600, -3600, 19800, 20700, -12600, 50400, -43200, 86399, -86399, -17762, 1172,
+                          60 * rng.randint(-1439, 1439), rng.randint(-86399, 86399)])
         if rng.random() < 0.2:
             inst = rng.choice([['o', 1, rng.choice([0, 3600, 86399]), 0], ['o', MAXORD, rng.choice([0, 82800, 86399]), 5]])
-        return {'fn': 'cal', 'op': 'utc', 'inst': inst, 'off': off}
+        return {'fn': 'cal', 'op': 'utc', 'inst': inst, 'off_s': off}
     if r < 0.92:
         k = rng.choice([20, 20, 20, 0, 1, 4, 100, 400, rng.randint(0, 9999)])
         if rng.random() < 0.4:
@@ -354,23 +405,67 @@ def _calendar_edges(rng):
         yield _base(rng, fn='derive', start=start, tz=tz, expire=expire, issuer=fast(), us=rng.choice([0, 1, 999999]))
 
 
-def _dst_cases(rng):
-    """start instants (UTC) shortly before a change of offset of the zone the start_time is expressed in, durations that
-    reach across it.  NOT part of the generated stream: derive_cert adds expire_sec to the wall-clock reading of the zone
-    (candidate_fixes/C16-dst-zone-duration); set VERIF_C16_DST=1 to run them (clean with the candidate fix applied)"""
-    for zone, changes in (('America/New_York', ([2024, 3, 10, 7, 0, 0], [2024, 11, 3, 6, 0, 0])),
-                          ('Europe/Berlin', ([2025, 3, 30, 1, 0, 0], [2025, 10, 26, 1, 0, 0])),
-                          ('Australia/Lord_Howe', ([2024, 4, 6, 15, 0, 0], [2024, 10, 5, 15, 30, 0]))):
-        for ch in changes:
-            for before, expire in ((3600, 7200), (86400 - 1, 86400), (19 * 3600, 86400), (1, 1), (10 * 86400, 30 * 86400), (60, 59)):
+_TRANS = {}
+
+
+def _transitions(zone, y0, y1):
+    """the UTC instants (to the second) in the years y0..y1-1 at which the zone's offset changes, found by asking the
+    zone day by day and bisecting"""
+    key = (zone, y0, y1)
+    if key not in _TRANS:
+        from zoneinfo import ZoneInfo
+        z, utc = ZoneInfo(zone), _dt.timezone.utc
+        off = lambda t: t.astimezone(z).utcoffset()      # noqa: E731
+        t, end, out = _dt.datetime(y0, 1, 1, tzinfo=utc), _dt.datetime(y1, 1, 1, tzinfo=utc), []
+        while t < end:
+            n = t + _dt.timedelta(days=1)
+            if off(n) != off(t):
+                lo, hi = t, n
+                while hi - lo > _dt.timedelta(seconds=1):
+                    mid = lo + _dt.timedelta(seconds=int((hi - lo).total_seconds()) // 2)
+                    lo, hi = (mid, hi) if off(mid) == off(lo) else (lo, mid)
+                out.append(_fields(hi))
+            t = n
+        _TRANS[key] = out
+    return _TRANS[key]
+
+
+DST_SPANS = [('America/New_York', 2024, 2025), ('Europe/Berlin', 2025, 2026), ('Australia/Lord_Howe', 2024, 2025),
+             ('Europe/Dublin', 2024, 2025), ('America/St_Johns', 2024, 2025), ('Pacific/Apia', 2011, 2012),
+             ('Asia/Kathmandu', 1985, 1987), ('America/New_York', 1883, 1884), ('Europe/Berlin', 8999, 9000),
+             ('Africa/Casablanca', 2024, 2025)]
+
+
+def _dst_cases(rng, tier):
+    """start instants (UTC) shortly before and shortly after every change of offset of the zone the start_time is
+    expressed in (after a backward change that is the repeated hour: fold = 1), durations that reach across the change
+    forwards and backwards, stay on one side of it, or span several changes"""
+    spans = DST_SPANS if tier != 'quick' else DST_SPANS[:3] + rng.sample(DST_SPANS[3:], 3)
+    for zone, y0, y1 in spans:
+        for ch in _transitions(zone, y0, y1):
+            combos = [(3600, 7200), (86400 - 1, 86400), (19 * 3600, 86400), (1, 1), (10 * 86400, 30 * 86400), (60, 59),
+                      (-1800, 3600), (-1800, -3600), (-1, -1), (0, 0), (-600, 200 * 86400), (-3 * 86400, -4 * 86400),
+                      (1, 0), (-7200, -7199)]
+            for before, expire in (combos if tier != 'quick' else combos[:6] + rng.sample(combos[6:], 4)):
                 start = _fields(_dt.datetime(*ch) - _dt.timedelta(seconds=before))
-                yield _base(rng, fn='derive', start=start, expire=expire, zone=zone, tz=None, issuer=rng.choice(FAST_ISSUERS))
+                yield _base(rng, fn='derive', start=start, expire=expire, zone=zone, tz=None, issuer=rng.choice(FAST_ISSUERS),
+                            us=rng.choice([0, 0, 999999]))
+    # fixed offsets with seconds, and a hand-written tzinfo whose offset depends on the day and on fold
+    for tz_s, start, expire in ((-17762, [1883, 11, 18, 17, 0, 0], 86400), (1172, [1937, 6, 30, 23, 40, 28], 1),
+                                (86399, [2024, 2, 29, 0, 0, 0], 1), (-86399, [2024, 12, 31, 23, 59, 59], 2),
+                                (59, [9999, 12, 31, 23, 59, 0], 59), (1, [1000, 1, 1, 0, 0, 0], 0)):
+        yield _base(rng, fn='derive', start=start, expire=expire, tz_s=tz_s, tz=None, issuer=rng.choice(FAST_ISSUERS))
+    for offs, fold, start, expire in (([3600, -7200], 0, [2024, 3, 1, 12, 0, 0], 86400), ([3600, -7200], 1, [2024, 3, 1, 12, 0, 0], 86400),
+                                      ([-86399, 86399], 0, [2024, 12, 31, 23, 59, 59], 1), ([-86399, 86399], 1, [2025, 1, 1, 0, 0, 0], -1),
+                                      ([45296, 45296], 0, [2000, 2, 29, 0, 0, 0], 366 * 86400), ([0, 1], 1, [2024, 6, 1, 0, 0, 0], 7),
+                                      ([50400, 0], 0, [9999, 12, 31, 23, 0, 0], 3600), ([50400, 0], 1, [9999, 12, 31, 23, 0, 0], 3600),
+                                      ([0, 43200], 0, [1, 1, 1, 0, 0, 0], 5), ([0, -3600], 1, [1000, 1, 1, 0, 0, 0], 5)):
+        yield _base(rng, fn='derive', start=start, expire=expire, wall_zone=offs, fold=fold, tz=None, issuer=rng.choice(FAST_ISSUERS))
 
 
 def cases(rng, tier):
-    import os
-    if os.environ.get('VERIF_C16_DST') == '1':
-        yield from _dst_cases(rng)
+    yield from _dst_cases(rng, tier)
+    yield from _keyish(rng, tier)
     yield from _calendar_edges(rng)
     yield from _sweep(rng, tier)
     yield from _sizes(rng, tier)
@@ -456,25 +551,61 @@ def _inst(dt):
     return [dt.toordinal(), dt.hour * 3600 + dt.minute * 60 + dt.second, dt.microsecond]
 
 
+class _WallZone(_dt.tzinfo):
+    """a hand-written tzinfo: the offset it reports depends on the wall-clock reading (parity of the day) and on fold"""
+
+    def __init__(self, offs):
+        self.offs = offs
+
+    def utcoffset(self, dt):
+        return _dt.timedelta(seconds=self.offs[(dt.toordinal() + dt.fold) % 2])
+
+    def dst(self, dt):
+        return None
+
+    def tzname(self, dt):
+        return 'wall'
+
+
 def _start_dt(case):
-    """the start_time handed to derive_cert: case['start'] is the requested instant in UTC; 'tz': None = naive,
-    0 = aware UTC, other = the same instant expressed in a zone that many hours from UTC"""
+    """the start_time handed to derive_cert.  case['start'] is the requested instant in UTC; 'tz': None = naive,
+    0 = aware UTC, other = the same instant expressed in a zone that many hours from UTC; 'tz_s': the same for a fixed
+    offset in seconds; 'zone': the same instant expressed in that zoneinfo zone.  With 'wall_zone' (two offsets)
+    case['start'] is the WALL-CLOCK reading of a hand-written tzinfo that reports offs[(ordinal + fold) % 2]."""
+    if case.get('wall_zone'):
+        return _dt.datetime(*case['start'], case.get('us', 0), tzinfo=_WallZone(case['wall_zone']), fold=case.get('fold', 0))
     if case.get('zone'):
-        # a zone whose offset varies (daylight saving): outside the model, oracle only
         from zoneinfo import ZoneInfo
         return _dt.datetime(*case['start'], case.get('us', 0), tzinfo=_dt.timezone.utc).astimezone(ZoneInfo(case['zone']))
+    if case.get('tz_s'):
+        utc = _dt.datetime(*case['start'], case.get('us', 0), tzinfo=_dt.timezone.utc)
+        return utc.astimezone(_dt.timezone(_dt.timedelta(seconds=case['tz_s'])))
     start = _dt.datetime(*case['start'], case.get('us', 0), tzinfo=None if case.get('tz') is None else _dt.timezone.utc)
     if case.get('tz'):
         start = start.astimezone(_dt.timezone(_dt.timedelta(hours=case['tz'])))
     return start
 
 
+def _off_s(td):
+    """a UTC offset in whole seconds"""
+    return td.days * 86400 + td.seconds
+
+
 def _issue(case):
     """the time inputs of the call in the model's terms (no calendar fields: the model computes them)"""
     if case['fn'] == 'derive':
+        # the tzinfo enters the model as the offset it reports for the start reading (with its fold) and the offset it
+        # reports for the wall-clock reading start + expire_sec (what a sum on the wall clock would be converted with)
         start = _start_dt(case)
-        off = 'n' if start.tzinfo is None else str(round(start.utcoffset().total_seconds() / 60))
-        return 'derive:%d,%d,%d,%s,%d' % (*_inst(start), off, case['expire'])
+        if start.tzinfo is None:
+            off, off2 = 'n', 0
+        else:
+            off = off2 = _off_s(start.utcoffset())
+            try:
+                off2 = _off_s((start + _dt.timedelta(seconds=case['expire'])).utcoffset())
+            except OverflowError:
+                pass
+        return 'derive:%d,%d,%d,%d,%s,%d,%d' % (*_inst(start), start.fold, off, off2, case['expire'])
     now = _dt.datetime(*case['now'], case.get('us', 0))
     return '%s:%d,%d,%d' % (case['fn'], *_inst(now))
 
@@ -512,7 +643,7 @@ def _run_cal(case):
         if op == 'add':
             return _cal_show(t + _dt.timedelta(seconds=case['n']))
         if op == 'utc':
-            aware = t.replace(tzinfo=_dt.timezone(_dt.timedelta(minutes=case['off'])))
+            aware = t.replace(tzinfo=_dt.timezone(_dt.timedelta(seconds=_cal_off_s(case))))
             return _cal_show(aware.astimezone(_dt.timezone.utc).replace(tzinfo=None))
         if op == 'addyears':
             return _cal_show(t.replace(year=t.year + case['k']))
@@ -521,6 +652,11 @@ def _run_cal(case):
         raise KeyError(op)
     except (ValueError, OverflowError) as e:
         return 'err ' + type(e).__name__
+
+
+def _cal_off_s(case):
+    """the offset of a `cal utc` case in seconds (replays written before the model took seconds carry minutes in 'off')"""
+    return case['off_s'] if 'off_s' in case else case['off'] * 60
 
 
 def _cal_line(case):
@@ -534,7 +670,7 @@ def _cal_line(case):
     inst = case['inst'][0] + ':' + ','.join(str(x) for x in case['inst'][1:])
     if op == 'fmt':
         return 'C16 cal fmt ' + inst
-    return 'C16 cal %s %s %d' % (op, inst, case[{'add': 'n', 'utc': 'off', 'addyears': 'k'}[op]])
+    return 'C16 cal %s %s %d' % (op, inst, _cal_off_s(case) if op == 'utc' else case[{'add': 'n', 'addyears': 'k'}[op]])
 
 
 def _buf(b, form):
@@ -555,7 +691,11 @@ def _requested(case):
             return [1970, 1, 1, 0, 0, 0], _fields(now.replace(year=now.year + 20))
         if case['fn'] == 'req':
             return _fields(now), _fields(now + _dt.timedelta(days=10))
-        return case['start'], _fields(_dt.datetime(*case['start'], us) + _dt.timedelta(seconds=case['expire']))
+        t0 = _dt.datetime(*case['start'], us)
+        if case.get('wall_zone'):
+            # the start is a wall-clock reading: the instant it designates is that reading minus the offset of the zone
+            t0 -= _dt.timedelta(seconds=case['wall_zone'][(t0.toordinal() + case.get('fold', 0)) % 2])
+        return _fields(t0), _fields(t0 + _dt.timedelta(seconds=case['expire']))
     except (ValueError, OverflowError):
         return None, None
 
@@ -672,6 +812,8 @@ def run_impl(case):
     try:
         fs = T.class_schema(sv.CertificateV2Value)
         vals = S.strict_packet(fs, wire, 6, False, True)
+        # the certificate's name as the harness's own decoder reads it off the wire (not the library's parsers)
+        out['wire_name'] = next(([c.hex() for c in v[1]] for f, v in zip(fs, vals) if f[0] == 'N' and v is not None), None)
         body = b''.join(T.ref_encode(s, v) for s, v in zip(fs, vals))
         out['strict'] = 'ok' if T.tl(6) + T.tl(len(body)) + body == wire else 'not-minimal-or-out-of-order'
     except S.Reject as r:
@@ -684,8 +826,8 @@ def model_line(case, impl):
         return _cal_line(case)
     if impl['made'][0] == 'calendar':
         # the implementation raised in its calendar arithmetic: the model must raise the same class from the same inputs
-        return None if case.get('zone') else 'C16 times ' + _issue(case)
-    if impl['made'][0] != 'ok' or impl.get('sig') is None or case.get('zone'):
+        return 'C16 times ' + _issue(case)
+    if impl['made'][0] != 'ok' or impl.get('sig') is None:
         return None
     kn = ','.join(T.hx(bytes.fromhex(c)) for c in case['key_name']) or '.'
     return (f"C16 cert {kn} {impl['issuer']} {impl['version']} {T.hx(bytes.fromhex(impl['pub']))} {impl['signer_info']} "
@@ -740,6 +882,8 @@ def oracle(case, impl):
         return 'the certificate does not parse'
     c = impl['cert']
     exp_name = list(case['key_name']) + [impl['issuer'], impl['version']]
+    if impl.get('wire_name') != exp_name:
+        return 'certificate name on the wire is not key-name / issuer-id / version'
     if c['name'] != exp_name or impl['name'] != exp_name or impl['parse_data']['name'] != exp_name:
         return 'certificate name is not key-name / issuer-id / version'
     if c['content'] != impl['pub'] or impl['parse_data']['content'] != impl['pub']:
@@ -793,7 +937,16 @@ def tags(case, impl):
                 t.append(key + ':day>=29')
         if case['fn'] == 'derive':
             t.append('issuer-id:' + case['issuer_id'][0] + ('-escaped' if '%' in case['issuer_id'][1] or '=' in case['issuer_id'][1] else ''))
-            t.append('tz:' + str(case.get('tz')))
+            t.append('tz:' + ('zone:' + case['zone'] if case.get('zone') else 'seconds' if case.get('tz_s') else
+                              'hand-written-fold%d' % case.get('fold', 0) if case.get('wall_zone') else str(case.get('tz'))))
+            if case.get('zone'):
+                try:
+                    st = _start_dt(case)
+                    a, b = st.utcoffset(), (st.astimezone(_dt.timezone.utc) + _dt.timedelta(seconds=case['expire'])).astimezone(st.tzinfo).utcoffset()
+                    t.append('zone-offset-over-the-period:' + ('same' if a == b else 'grows' if b > a else 'shrinks') +
+                             (',start-in-fold' if st.fold else ''))
+                except OverflowError:
+                    pass
         t.append('kn-form:' + case.get('kn_form', 'list'))
         t.append('prior-certificates-of-the-signer:%d' % case.get('prior', 0))
         t.append('key-form:' + case.get('key_form', 'der'))
@@ -802,6 +955,9 @@ def tags(case, impl):
         if case['fn'] == 'derive' and case['issuer_id'][0] == 'comp':
             t.append('issuer-comp-form:' + case.get('iid_form', 'bytes'))
         t.append('kn-comps:%d' % min(len(case['key_name']), 3))
+        k = _gc('KEY')
+        t.append('KEY-components-in-key-name:%d%s' % (min(case['key_name'].count(k), 3),
+                                                       ',at-4th-from-end' if case['key_name'][-4:-3] == [k] else ''))
         t.append('verify:' + str(impl['verify']))
     return t
 
